@@ -1,5 +1,6 @@
 import SockModel.Model.PeerFail
 import SockModel.Model.TlsLemmas
+import SockModel.Spec.C15
 /-!
 # C15  Peer failure at any point is reported, never fatal
 
@@ -435,6 +436,33 @@ theorem nosignal_everywhere {σ : Type} (C : Cfg) (E : Engine σ) (e0 : σ) (scr
             · exact nw _ _ _ (Script.noSignalInv.sendSome _ bs _ _ 0 h) }
     exact F.run C E (fun s b h => h) ops _ h0
   · exact Script.noSignalInv.sendAny script data t h0
+
+/-! ## the run-time oracle is a theorem of the model -/
+
+/-- **spec_holds_on_model_partial** (`_partial`: endpoints without TLS; the full statement and what it lacks are in
+`Spec/C15.lean` next to `model_satisfies_spec_partial`).  The predicate `./check C15` evaluates on the implementation's transcript
+(`Spec.specRun`, then `Spec.specFinal`, of `Spec/C15.lean` - the driver calls exactly these functions) accepts every
+trace the MODEL of the plain socket can produce: for every API level (synchronous `Send` / `Receive` of the basic and
+buffered socket with any timeout, asynchronous socket on a driver), every receive buffer size, every payload and every
+history of any length - peer sends in any segmentation, any scripted kernel answers (short writes, errors, time-outs),
+driver steps with any `poll` result, a close / half close / reset of the peer at any point with or without loss of
+unread data, destruction of the asynchronous socket - that satisfies the environment assumptions `Spec.histOk`
+(decidable: the kernel does not accept 0 bytes of a non-empty buffer; K1 - after the kill `poll` reports the socket
+ready / readable, `send` fails from some call on, `recv` yields the unread segments and then end of stream, or an
+error only when the end is not orderly; the scenario is played to its end).  Hence: no exception class other than a
+runtime error, nothing thrown out of `Step`, MSG_NOSIGNAL on every send, waits within the call's timeout semantics,
+disconnect handler exactly once, every promise resolved or broken, delivered = prefix of the peer's stream and all of
+it for an orderly close - all consequences of the model; a `spec` verdict on the implementation is a difference
+between implementation and model. -/
+theorem spec_holds_on_model_partial (async : Bool) (rsz : Nat) (ppay : Bytes) (history : List Spec.Op)
+    (h : Spec.histOk async rsz ppay history = true) :
+    ∃ s, Spec.specRun {} (Spec.modelTrace async rsz ppay history) = .ok s ∧ Spec.specFinal s = none :=
+  Spec.model_satisfies_spec_partial async rsz ppay history h
+
+/-- the hypothesis is satisfiable by non-trivial histories of both API levels (more examples, including traces the
+predicate rejects and the necessity of each assumption, at the end of `Spec/C15.lean`) -/
+example : Spec.histOk false 4 [1, 2, 3, 4, 5, 6, 7, 8] Spec.demoSync = true := by decide
+example : Spec.histOk true 4 [1, 2, 3, 4, 5, 6, 7, 8] Spec.demoAsync = true := by decide
 
 /-! ### non-vacuity -/
 
